@@ -269,6 +269,20 @@ def binop(rt, interp, op, a, b, node=None):
 
 
 def _concrete_binop(rt, interp, opn, a, b, node):
+    def is_type(x):
+        return isinstance(x, (PyClass, TypeObj)) or x is None or (isinstance(x, tuple) and x and all(is_type(y) for y in x))
+    if (isinstance(a, (PyClass, TypeObj)) or isinstance(b, (PyClass, TypeObj))) and is_type(a) and is_type(b):
+        if opn == "BitOr":
+            # PEP 604: `A | B` of classes, used as the second argument of isinstance(): the tuple of the classes
+            flat = []
+            for x in (a, b):
+                flat.extend(x if isinstance(x, tuple) else [x])
+            return tuple(flat)
+        raise Undecided("operator %s on classes" % opn)
+    from .objects import Closure as _Closure, LambdaFn as _LambdaFn
+    if any(isinstance(x, (PyClass, TypeObj, _Closure, _LambdaFn, Builtin, Opaque, ModuleObj)) for x in (a, b)):
+        # what the engine has no value model for is never turned into an interpreted TypeError
+        raise Undecided("operator %s on %s and %s" % (opn, type(a).__name__, type(b).__name__))
     if isinstance(a, Obj) or isinstance(b, Obj):
         dunder = {"Add": "__add__", "Sub": "__sub__", "Mult": "__mul__", "FloorDiv": "__floordiv__"}.get(opn)
         if dunder and isinstance(a, Obj):
@@ -665,6 +679,10 @@ def _zip(interp, args, kwargs):
 def _enumerate(interp, args, kwargs):
     start = args[1] if len(args) > 1 else kwargs.get("start", 0)
     return GenResult([(i + start, x) for i, x in enumerate(interp.iterate(args[0]))])
+
+
+def _undecided(msg):
+    raise Undecided(msg)
 
 
 def _divmod(interp, args, kwargs):
@@ -1241,6 +1259,8 @@ def install(rt):
                      ("min", _minmax("min")), ("max", _minmax("max")), ("zip", _zip), ("enumerate", _enumerate),
                      ("range", _range), ("reversed", _reversed), ("iter", _iter), ("next", _next), ("hash", _hash),
                      ("map", _map), ("filter", _filter), ("divmod", _divmod),
+                     ("setattr", lambda i, a, k: i.rt.setattr(i, a[0], a[1], a[2]) if isinstance(a[1], str) else _undecided("setattr with a symbolic name")),
+                     ("delattr", lambda i, a, k: _undecided("delattr")),
                      ("hasattr", _hasattr), ("getattr", _getattr), ("repr", _repr), ("type", _type), ("sum", _sum),
                      ("abs", _abs), ("print", lambda i, a, k: None), ("id", lambda i, a, k: i.ctx.fresh_int("id"))]:
         B[name] = Builtin(name, fn)
